@@ -38,7 +38,7 @@ def _tower(partial):
     return {"components": ["tower"], "trusted_base": TB_TOWER, "assumptions": AS_TOWER, "partial": partial}
 
 PROPS["C01"] = _tower("theorems are per breach (handle_breach, one loop iteration, add with cached dispute) plus the visiting lemma; the lifting to whole histories is by the correspondence run and the C01 monitors, not a single induction. `-27 already in chain` leaves the appointment watched (statement does not cover it). Late appointments after a reorg can miss the 6-block window (C19 deficit).")
-PROPS["C02"] = _tower("call sites of sendrawtransaction enumerated and each bounded by a theorem; the union over a whole block/history is checked by the C02 monitor on every RPC of every explored history.")
+PROPS["C02"] = _tower("call sites of sendrawtransaction enumerated and each bounded by a theorem; the union over whole histories is a theorem too (ghost-record invariant GInv, Lemmas/TowerJust), and is re-checked by the C02 monitor on every RPC of every explored history of the real code.")
 PROPS["C04"] = _tower("per-tracker theorems for each of the four loops + block-level refund theorem; confirmed-in-active-chain over whole histories is monitored, not proved by one induction.")
 PROPS["C06"] = _tower("recover_pk is an input (the signer); the byte-exact request messages are recomputed by the harness independently of the tower's code.")
 PROPS["C07"] = _tower("conservation proved in differential form per primitive (sum form is recomputed by the monitor from the real tables after every operation); f32 formula proved exact below 2^24 and compared exhaustively with the real function.")
@@ -74,7 +74,7 @@ PROPS["C10"] = {"components": ["conc"], "monitor_props": ["C10"], "trusted_base"
     "partial": "theorems cover the two orders of the mutually exclusive sections (no missed breach), charged-once, commuting slot updates, foreign keys; that every interleaving of whole operations is equivalent to a sequential order is explored (<= 2/3 pre-emptions), not proved; tokio scheduling and memory-model effects are outside the model. Known finding: requests racing with the purge of their own user panic."}
 PROPS["C11"] = {"components": ["conc", "tower"], "monitor_props": ["C11"], "trusted_base": TB_CONC,
     "assumptions": ["the recorded lock traces (re-recorded and compared on every run) are the lock behaviour of the operations in the states explored; other states are covered by the lock-order graph recorded over every harness run"],
-    "partial": "deadlock freedom is a theorem for any number of threads running the recorded operation traces; abort-freedom is proved for the request handlers under local hypotheses and compared (model abort marker vs real panics) on every history for block processing; condition-variable waits are C12."}
+    "partial": "deadlock freedom is a theorem for any number of threads running the recorded operation traces; abort-freedom is a theorem for every SEQUENTIAL history (tower_never_aborts: global invariant over all operations, hypotheses: consistent database at start, distinct block hashes, heights >= 6, disconnections of the tip) and the model's abort marker is compared with real panics on every history; under concurrency three abort sites remain reachable (known findings); condition-variable waits are C12."}
 
 PROPS["C12"] = {"components": ["outage"], "monitor_props": ["C12"], "trusted_base": TB_CONC + [
         "the simulated block source (lightning-block-sync BlockSource) and the fault script; SpvClient's fork walk and partial-progress behaviour are exercised, not verified"],
@@ -106,11 +106,11 @@ PROPS["C05"] = {"components": ["plugin"], "monitor_props": ["C05"], "trusted_bas
     "assumptions": ["'notified' = the hook call has returned (a kill while the handler is still looping over the towers interrupts the notification itself)",
                     "crash points are transaction boundaries (sqlite's atomic commit is trusted); kills in the scenarios happen at stable points, the theorem never_lost covers every boundary",
                     "remove_pending_appointment is only called right after the receipt or the rejection of the same (tower, locator) was stored (its two call sites in Retrier::run)"],
-    "partial": "proved: recorded in AT LEAST one of accepted/pending/invalid at every transaction boundary of every guarded operation sequence, after every notification for every listed tower, and through every event history (all_due_recorded). 'EXACTLY one' is proved for the results of the two moves and checked by the monitor at every stable point of the scenarios; between the two writes of a move both records exist (example in Props/C05.lean), which a kill exactly there would leave in the file until the next start completes the move: not exhibited on the real binary, so not listed as a finding."}
+    "partial": "proved: recorded in AT LEAST one of accepted/pending/invalid at every transaction boundary of every guarded operation sequence (never_lost), and EXACTLY one at every stable point of every event history (exactly_one_at_stable_points: invariant Tidy kept by the handler, the retriers, the commands and the restart). Between the two writes of a move both records exist (example in Props/C05.lean); a kill exactly there would leave both in the file until the next start completes the move: not exhibited on the real binary, so not listed as a finding. The hold/release events of the correspondence run (a retrier blocked on a silent tower) are in the model but outside the event type the history theorems quantify over."}
 PROPS["C13"] = {"components": ["plugin"], "monitor_props": ["C13"], "trusted_base": TB_PLUGIN,
     "assumptions": ["tower behaviour is constant while a retrier runs (the scenarios change it only at stable points)",
                     "an idle retrier implies status unreachable (holds in every compared state after fix 4463be4; hypothesis of manual_retry_documented_states)"],
-    "partial": "real-time clauses (delivery within the configured delays, request rate) are measured on the real binary with tolerances, not proved; 'at no time two retry loops for one tower' is structural in the model (one optional retrier per tower) and is not separately observable on the binary except through duplicate requests; the timed auto-retry scenarios are monitor-only (not compared with the stable-point model)."}
+    "partial": "proved for every event history: a tower shown reachable has nothing pending (listing and file), the pending listing is the file; delivery after recovery incl. after a subscription renewal; the manual-retry gate. Real-time clauses (delivery within the configured delays, request rate) are measured on the real binary with tolerances, not proved; 'at no time two retry loops for one tower' is structural in the model (one optional retrier per tower) and is not separately observable on the binary except through duplicate requests; the timed auto-retry scenarios are monitor-only (not compared with the stable-point model)."}
 PROPS["C14"] = {"components": ["plugin"], "monitor_props": ["C14"], "trusted_base": TB_PLUGIN + [
         "signature verification and recovery are the abstract scheme of C17; replies reach the model already classified (wrong signer / unparsable / ...)"],
     "assumptions": ["the classification of a reply by net::http (process_post_response, send_appointment) is total and panic-free: checked on the real binary for every reply kind of the scenarios (monitor no_answer), not proved for all byte strings"],
